@@ -3,6 +3,7 @@
 
 //#include <igris/compiler.h>
 #include <igris/compiler.h>
+#include <igris/util/member.h>
 
 struct hlist_node
 {
@@ -58,11 +59,20 @@ __END_DECLS
 #define hlist_first_entry(head, type, member)                                  \
     hlist_entry((head)->first, type, member)
 
+/** like hlist_entry, but a null node gives a null entry */
+#define hlist_entry_or_null(ptr, type, member)                                 \
+    mcast_out_or_null(ptr, type, member)
+
 #define hlist_for_each(pos, head)                                              \
     for (pos = (head)->first; pos != 0; pos = pos->next)
 
+/* The end of the list is a null node: converting it to an entry and testing
+ * "&pos->member != 0" afterwards is pointer arithmetic on null, which
+ * compilers fold to "always true" (the loop then runs off the list). */
 #define hlist_for_each_entry(pos, head, member)                                \
-    for (pos = hlist_first_entry(head, __typeof__(*pos), member);              \
-         &pos->member != 0; pos = hlist_next_entry(pos, member))
+    for (pos = hlist_entry_or_null((head)->first, __typeof__(*pos), member);   \
+         pos != 0;                                                             \
+         pos = hlist_entry_or_null((pos)->member.next, __typeof__(*pos),       \
+                                   member))
 
 #endif
